@@ -30,6 +30,19 @@ LEVEL = {
             "attempt = first crossing (complete spec), reset and fresh threshold, user thresholds first, inverse-CDF target slot of length g_j/G, "
             "hop-time law prod(1-p_i) p_k (Poisson equivalence), zero-rate steps never attempt. Tied to TrajectoryCum.hopper on driven sequences", "7 C09", NOTE,
             "Lean 4 theorems (list induction, Real.exp algebra) + sequence correspondence"),
+    "C14": ("proof", "Lean refinement of the YAML store to 'a plain list of snapshots', for every page size >= 1 and every history: collect = append "
+            "(invariant preserved, all file operations succeed), len, indexing incl. negative indices and IndexError, reload reproduces the object state "
+            "(also at exact multiples of the page size), in-memory store refines the same list (stores_agree for every index), clone holds the same "
+            "history under a name proved absent from the directory, writes to one trace leave all others untouched. Tied to real stores by random "
+            "operation scripts over several traces in one directory (results AND directory listing compared), bit-exact numeric content incl. "
+            "adversarial doubles, collect CLI rows. YAML text round-trip of doubles is PyYAML's (checked bit-exactly, not proved)", "7 C14", NOTE,
+            "Lean 4 refinement proof (representation invariant, list lemmas) + script correspondence"),
+    "C15": ("proof", "Lean theorem crash_prefix: for every history (>=1 snapshot), every page size >= 1 and EVERY crash point at file-operation "
+            "granularity the files load, satisfy the representation invariant and hold the completed snapshots or those plus the in-flight one; a "
+            "collect on the reloaded trace extends it without duplicates; counterexample theorem for the originally pinned operation order. Tied to "
+            "the code by injecting a failure before every write-mode open of every generated history (exhaustive per history) and comparing load "
+            "result, contents and directory with the model's prediction for both orders", "7 C15", NOTE,
+            "Lean 4 theorem over all prefixes of the operation sequence + exhaustive fault injection per history"),
     "C17": ("proof", "Lean theorems for any list of traces with weights >= 0, total > 0: every table entry in [0,1], entries sum to one (1-D), "
             "table/counts/histogram invariant under List.Perm, counts = cardinality, hop histogram sums to one, driver row = row-major table. "
             "Tied to real batches of all five classes (even-sampling trees with unequal weights), both stores, summarize() text and CLI rows", "7 C17", NOTE,
